@@ -22,19 +22,20 @@ Theorem C04_attribute_operators_are_css :
   forall op ins actual operand, attr_cmp op ins actual operand = css_attr_cmp op ins actual operand.
 Proof. exact attribute_operators_are_css. Qed.
 
-(* :nth-child / :nth-of-type: An+B membership; the wrapping i32 arithmetic is exact whenever index - b stays in i32 *)
+(* :nth-child / :nth-of-type: An+B membership for every step, offset and index (the difference is computed in i64 since
+   fix 9d5b935; the translator reads which arithmetic the source uses) *)
 Theorem C04_an_plus_b_meaning :
   forall a b i : Z, an_plus_b a b i = true <-> exists n : Z, (0 <= n /\ a * n + b = i)%Z.
 Proof. exact an_plus_b_spec. Qed.
 Theorem C04_nth_index_is_an_plus_b :
-  forall a b i : Z, in_i32 (i - b) -> has_index a b i = an_plus_b a b i.
-Proof. exact has_index_correct. Qed.
+  forall a b i : Z, has_index a b i = an_plus_b a b i.
+Proof. exact has_index_exact. Qed.
 
 (* One selector compound against one element: the predicate built by Ast::add_selector (negations flattened into signed
    conjuncts) and evaluated by the VM (tag-name expressions, then attribute expressions) decides exactly the CSS meaning of
    the compound, for EVERY element (name, namespace, attributes incl. duplicates and case variants, sibling positions) and
    every compound whose negations flatten exactly (compound_ok: :not() arguments are single simple selectors under one
-   negation, a single compound under a double negation; nth offsets within i32; class names non-empty). *)
+   negation, a single compound under a double negation; class names non-empty). *)
 Theorem C04_predicate_decides_compound :
   forall (e : elem) (c : compound), compound_ok e c -> vm_predicate e (compound_predicate c) = compound_matches e c.
 Proof. exact predicate_decides_compound. Qed.
@@ -171,8 +172,8 @@ Example C04_names_example : lname_eqb (lname_of_str (bs "DIV")) (lname_of_str (b
 Proof. exact (conj eq_refl (conj eq_refl eq_refl)). Qed.
 Example C04_empty_operand_example : attr_cmp OpPrefix false (bs "abc") [] = false /\ attr_cmp OpIncludes false (bs "a  b") [] = false.
 Proof. exact (conj eq_refl eq_refl). Qed.
-Example C04_nth_wraps_only_at_the_i32_edge : has_index 1 (-2147483648) 1 = false /\ an_plus_b 1 (-2147483648) 1 = true.
-Proof. exact has_index_wraps_at_i32_edge. Qed.
+Example C04_nth_at_the_i32_edge : has_index 1 (-2147483648) 1 = true /\ an_plus_b 1 (-2147483648) 1 = true.
+Proof. exact has_index_at_i32_edge. Qed.
 
 Print Assumptions C04_local_names_compare_ascii_case_insensitively.
 Print Assumptions C04_attribute_operators_are_css.
